@@ -350,6 +350,37 @@ func c06Run(c *core.Ctx) {
 			}
 			emit(c06Case{Family: "csv|declared-header " + h.line, Schema: schemaText, Input: []byte(in), Want: want, Fatal: h.fatal}, schema, "csv-header|"+h.line)
 		}
+		// declared names and header cells over an alphabet with the delimiter, blanks and quotes inside: the
+		// header is accepted iff every declared name equals (blanks around it aside) the cell at its position
+		{
+			names := []string{"a", "b", "a,b", "b c", "b,", `q"r`}
+			for _, n1 := range names {
+				for _, n2 := range names {
+					if n1 == n2 {
+						continue // (declared names must differ)
+					}
+					st := `{` + hdr("csv") + `,"file_declaration":{"delimiter":",","header_row_index":1,"data_row_index":2,"columns":[{"name":` + jq(n1) + `,"alias":"k1"},{"name":` + jq(n2) + `,"alias":"k2"}]},"transform_declarations":{"FINAL_OUTPUT":{"object":{` + colOut + `}}}}`
+					sc, err, _ := hx.NewSchema("s", st)
+					if err != nil {
+						c.HarnessError("csv header schema rejected: " + err.Error())
+						continue
+					}
+					for _, c1 := range names {
+						for _, c2 := range names {
+							for _, extra := range []string{"", ",x"} {
+								in := rfc4180(c1, ",", false) + "," + rfc4180(" "+c2+" ", ",", false) + extra + "\nv1,v2\n"
+								match := c1 == n1 && c2 == n2
+								want := [][]*string{{sp("v1"), sp("v2")}}
+								if !match {
+									want = nil
+								}
+								emit(c06Case{Family: fmt.Sprintf("csv|declared names %q %q, header cells %q %q%s", n1, n2, c1, c2, extra), Schema: st, Input: []byte(in), Want: want, Fatal: !match}, sc, "csv-header-cells")
+							}
+						}
+					}
+				}
+			}
+		}
 		// header / data row indices are physical line numbers: skipped regions with multi-line quoted
 		// records and blank lines
 		for _, lay := range []struct {
@@ -823,6 +854,43 @@ func c06Run(c *core.Ctx) {
 				})
 				if c.TimeUp() {
 					return
+				}
+			}
+		}
+		// two columns on DIFFERENT rows of a multi-row envelope whose rows have multi-byte runes at different
+		// places: every ordered pair of rows x start 1/3/5 x length 2/4 for both columns (a position counted in
+		// one row means nothing in another)
+		{
+			rowsText := []string{"1é世ab cdéf", "2ab世é世xyzw", "3世世世zzzzé"}
+			for ri := 0; ri < 3; ri++ {
+				for rj := 0; rj < 3; rj++ {
+					if ri == rj {
+						continue
+					}
+					for _, s1 := range []int{1, 3, 5} {
+						for _, l1 := range []int{2, 4} {
+							for _, s2 := range []int{1, 3, 5} {
+								for _, l2 := range []int{2, 4} {
+									sel := func(r int) string {
+										if format == "fixed-length" {
+											return fmt.Sprintf(`,"line_pattern":"^%d"`, r+1)
+										}
+										return fmt.Sprintf(`,"line_index":%d`, r+1)
+									}
+									cols := fmt.Sprintf(`{"name":"k1","start_pos":%d,"length":%d%s},{"name":"k2","start_pos":%d,"length":%d%s}`, s1, l1, sel(ri), s2, l2, sel(rj))
+									env := `{"by_rows":3,"columns":[` + cols + `]}`
+									if format == "fixedlength2" {
+										env = `{"rows":3,"columns":[` + cols + `]}`
+									}
+									_, colOut := c06Cols(2, "k")
+									st := `{` + hdr(format) + `,"file_declaration":{"envelopes":[` + env + `]},"transform_declarations":{"FINAL_OUTPUT":{"object":{` + colOut + `}}}}`
+									in := strings.Join(rowsText, "\n") + "\n" + strings.Join(rowsText, "\r\n") + "\r\n"
+									rec := []*string{sp(slice(rowsText[ri], s1, l1)), sp(slice(rowsText[rj], s2, l2))}
+									emit(c06Case{Family: fmt.Sprintf("%s|columns on rows %d and %d of a 3-row envelope with multi-byte runes", format, ri+1, rj+1), Schema: st, Input: []byte(in), Want: [][]*string{rec, rec}}, nil, format+"-multirow-multibyte")
+								}
+							}
+						}
+					}
 				}
 			}
 		}
